@@ -1,5 +1,6 @@
 """C19 — plugin verdicts are enforced before anything reaches a server."""
 from mirlib import *
+import os
 
 H = "pgcat::client::Client::handle::{closure#0}"
 EXEC = "pgcat::query_router::QueryRouter::execute_plugins"
@@ -309,6 +310,31 @@ def run(ctx):
                 bad.append(c.span)
         r2.check(bool(drops) and not bad, "verdict-dropped-only-when-consumed", "plugin_output is reset to None only in the arms that consume a Deny/Intercept (%d sites) and at initialisation" % len(drops),
                  "the pending plugin verdict is dropped outside the arms that consume it (%s): the refused batch stays buffered across a release (`BEGIN; Parse(denied) Bind Execute; COMMIT; Sync`) and the next Sync forwards it" % bad)
+
+    # relation names in positions sqlparser's visit_relations does not reach (read off the source of the linked sqlparser, 0.52.0: the
+    # `visit(with = "visit_relation")` attribute is on FROM/JOIN table factors, DML targets, ALTER/TRUNCATE/ANALYZE/... - not on the fields
+    # below). The property wants a listed table refused in any position, so the plugin has to look at these statement kinds itself.
+    UNREACHED = [("Statement", "Copy", "COPY <table> TO/FROM"), ("Statement", "Drop", "DROP TABLE <table>"), ("Statement", "Comment", "COMMENT ON TABLE <table>"),
+                 ("Statement", "Grant", "GRANT .. ON <table>"), ("Statement", "CreateTable", "CREATE TABLE .. (LIKE <table>)"), ("SetExpr", "Table", "TABLE <table> / CREATE TABLE .. AS TABLE <table>")]
+    lock = ""
+    try:
+        lock = open(os.path.join(os.environ.get("PGCAT_REPO", "/repo"), "Cargo.lock")).read()
+    except Exception:
+        pass
+    mver = re.search(r'name = "sqlparser"\nversion = "([^"]+)"', lock)
+    r4.check(bool(mver) and mver.group(1) == "0.52.0", "sqlparser-version", "the table of unreached positions was derived for sqlparser %s" % (mver.group(1) if mver else "?"),
+             "the linked sqlparser is %s, the table of positions visit_relations does not reach was derived for 0.52.0: derive it again" % (mver.group(1) if mver else "unknown"))
+    if ta:
+        ta_bodies = [b for n_, b in F.bodies.items() if "plugins::table_access" in n_]
+        handled = set()
+        for b in ta_bodies:
+            for sw in switches(b):
+                d = sw.discr()
+                if d and ("sqlparser::ast::Statement" in str(d[0]) or "sqlparser::ast::query::SetExpr" in str(d[0])):
+                    handled |= {(str(d[0]).split("::")[-1], v) for v in d[2]}
+        for ty, var, what in UNREACHED:
+            r4.check((ty, var) in handled, "relation-position:%s::%s" % (ty, var), "table_access looks at %s::%s itself" % (ty, var),
+                     "`%s` names a relation where sqlparser's visit_relations does not look, and table_access has no arm for %s::%s: the statement refers to a listed table and is forwarded" % (what, ty, var))
 
     # ---------------- R5 order and disabled behaviour
     r5 = ctx.rule("C19-R5", "with plugins disabled nothing is blocked; intercept is consulted before table_access; an Intercept payload ends with ReadyForQuery", floor=4)
